@@ -1,5 +1,6 @@
 import StraxModel.Driver.Parse
 import StraxModel.Model.FS
+import StraxModel.Model.StorePolicy
 /-
   Driver ops of property C04 (crash safety of the save protocol).
 
@@ -12,6 +13,10 @@ import StraxModel.Model.FS
            variant ser|exe|frk, protocol 1 (current) | 0 (before the D3 fix) | 2 (before the D12 fix) | 3 (before the D35 fix), rmorder li|mf|ml,
            fault `none` | `+`-separated list of `exc@k` | `db@k` | `da@k` (k-th FS operation of the attempt) | `ab@k` (exception
            thrown in after k ops) | `sk@k` (the thread that would issue operation k fails without issuing it)
+    c04.policy ow <never|if_broken|always> <ended 0|1> <exc 0|1>     `_can_overwrite`            -> `ok true|false`
+    c04.policy broken <allow_incomplete 0|1> <ended> <exc>           check_broken block of `find` -> `ok` | `err DataNotAvailable`
+    c04.policy wfind <dir exists 0|1> <policy> <ended> <exc>         `_find(write=True)`          -> `ok` | `err DataExistsError`
+
   report   `<result> find=<ok|err Kind> load=<ok chunks|err Kind> d12=<0|1> ops=<op,op,…>`
 -/
 namespace Strax.Driver.C04
@@ -139,6 +144,12 @@ def c04Run (cs : List Chunk) : FS → List C04Attempt → List String
     let (fs', line) := c04Report fs cs a
     line :: c04Run cs fs' rest
 
+def c04Overwrite : String → Option Overwrite
+  | "never" => some .never | "if_broken" => some .ifBroken | "always" => some .always | _ => none
+
+def c04Bit : String → Option Bool
+  | "0" => some false | "1" => some true | _ => none
+
 end Strax.Driver.C04
 
 namespace Strax.Driver
@@ -149,6 +160,14 @@ def handleC04 : List String → Option String
     let cs ← c04Chunks chunks
     let as ← attempts.mapM c04Attempt
     pure <| " ; ".intercalate (c04Run cs FS.empty as)
+  | ["c04.policy", "ow", p, e, x] => do
+    let p ← c04Overwrite p
+    pure s!"ok {canOverwrite p ⟨[], ← c04Bit e, ← c04Bit x⟩}"
+  | ["c04.policy", "broken", a, e, x] => do
+    pure <| showUnit (brokenCheck (← c04Bit a) ⟨[], ← c04Bit e, ← c04Bit x⟩)
+  | ["c04.policy", "wfind", d, p, e, x] => do
+    let p ← c04Overwrite p
+    pure <| if writeRefused (← c04Bit d) p ⟨[], ← c04Bit e, ← c04Bit x⟩ then "err DataExistsError" else "ok"
   | _ => none
 
 end Strax.Driver
